@@ -28,8 +28,10 @@ class Skel:
 
 
 class Builder:
-    def __init__(self, rng, lang, max_depth=3):
+    def __init__(self, rng, lang, max_depth=3, only=None, loop_dom=(0, 1, 2)):
         self.rng, self.lang, self.max_depth = rng, lang, max_depth
+        self.only = only            # optional whitelist of node kinds
+        self.loop_dom = loop_dom
         self.domains = []
         self.pairs = set()
 
@@ -45,6 +47,8 @@ class Builder:
             ks += ["break", "continue", "break", "continue"]
         if depth <= 1 and not in_func_nest:
             ks += ["func", "class"]
+        if self.only is not None:
+            ks = [k for k in ks if k in self.only]
         return ks
 
     def block(self, depth, in_loop, nest, parent_kind, minlen=1):
@@ -76,7 +80,7 @@ class Builder:
                 els = []
             return ("if", i, then, els)
         if k in LOOPS:
-            i = self.dec((0, 1, 2))
+            i = self.dec(tuple(self.loop_dom))
             body = self.block(depth + 1, True, nest, k) if self.rng.random() < 0.95 or self.lang == "python" else []
             return (k, i, body)
         if k == "try":
@@ -109,9 +113,9 @@ class Builder:
         raise AssertionError(k)
 
 
-def random_skeleton(seed, lang, max_depth=3):
+def random_skeleton(seed, lang, max_depth=3, only=None, loop_dom=(0, 1, 2)):
     rng = random.Random(seed)
-    b = Builder(rng, lang, max_depth)
+    b = Builder(rng, lang, max_depth, only=only, loop_dom=loop_dom)
     body = b.block(0, False, False, "main", minlen=rng.choice([1, 2, 3]))
     return Skel(body, b.domains, f"rand{seed}"), b.pairs
 
@@ -425,4 +429,65 @@ class JsRenderer(PyRenderer):
         return "\n".join(self.lines) + "\n"
 
 
+class _DuMixin:
+    """Simple statements become definitions/uses over a small pool of variables (for the reaching-definition checks)."""
+    NV = 3
+
+    def du_init(self, seed):
+        self.du_rng = random.Random(seed)
+
+    def du_stmt(self):
+        r = self.du_rng
+        v = f"v{r.randrange(self.NV)}"
+        w = f"v{r.randrange(self.NV)}"
+        k = r.random()
+        if k < 0.3:
+            return f"{v} = {self.const()}"
+        if k < 0.6:
+            return f"{v} = {w} + {self.const()}"
+        if k < 0.75:
+            return f"{v} = {v} + 1"
+        return f"out({w})"
+
+
+class PyDuRenderer(_DuMixin, PyRenderer):
+    def node(self, ind, n):
+        if n[0] == "s":
+            self.emit(ind, self.du_stmt())
+        else:
+            PyRenderer.node(self, ind, n)
+
+    def render(self, skel):
+        self.du_init(__import__("zlib").crc32(skel.label.encode()))
+        self.emit(0, "def main(d):")
+        for i in range(self.NV):
+            self.emit(1, f"v{i} = {self.const()}")
+        self.block(1, skel.body)
+        self.emit(1, "out(v0)")
+        self.emit(1, "out(v1)")
+        self.emit(1, "out(v2)")
+        return "\n".join(self.lines) + "\n"
+
+
+class JsDuRenderer(_DuMixin, JsRenderer):
+    def node(self, ind, n):
+        if n[0] == "s":
+            self.emit(ind, self.du_stmt() + ";")
+        else:
+            JsRenderer.node(self, ind, n)
+
+    def render(self, skel):
+        self.du_init(__import__("zlib").crc32(skel.label.encode()))
+        self.emit(0, "function main(d) {")
+        for i in range(self.NV):
+            self.emit(1, f"let v{i} = {self.const()};")
+        self.block(1, skel.body)
+        self.emit(1, "out(v0);")
+        self.emit(1, "out(v1);")
+        self.emit(1, "out(v2);")
+        self.emit(0, "}")
+        return "\n".join(self.lines) + "\n"
+
+
 RENDERERS = {"python": PyRenderer, "javascript": JsRenderer}
+DU_RENDERERS = {"python": PyDuRenderer, "javascript": JsDuRenderer}
